@@ -38,6 +38,9 @@ pub enum Op {
     /// destructor is running.
     SelfCloneSlot { idx: Id, d: Id },
     SelfDropSlot { idx: Id },
+    /// Script only: `Rc::downgrade` the `idx`-th handle still stored in the dying
+    /// value (possibly a handle to a dying peer) and keep the Weak as program Weak `w`.
+    SelfDowngradeSlot { idx: Id, w: Id },
 }
 
 impl Op {
@@ -68,6 +71,7 @@ impl Op {
             Op::Noise { .. } => "Noise",
             Op::SelfCloneSlot { .. } => "SelfCloneSlot",
             Op::SelfDropSlot { .. } => "SelfDropSlot",
+            Op::SelfDowngradeSlot { .. } => "SelfDowngradeSlot",
         }
     }
 
@@ -98,6 +102,7 @@ impl Op {
             Op::Noise { n } => vec![n],
             Op::SelfCloneSlot { idx, d } => vec![idx, d],
             Op::SelfDropSlot { idx } => vec![idx],
+            Op::SelfDowngradeSlot { idx, w } => vec![idx, w],
         }
     }
 
@@ -141,6 +146,7 @@ impl Op {
             "Noise" => { need(1)?; Op::Noise { n: a[0] } }
             "SelfCloneSlot" => { need(2)?; Op::SelfCloneSlot { idx: a[0], d: a[1] } }
             "SelfDropSlot" => { need(1)?; Op::SelfDropSlot { idx: a[0] } }
+            "SelfDowngradeSlot" => { need(2)?; Op::SelfDowngradeSlot { idx: a[0], w: a[1] } }
             _ => return Err(format!("unknown op {name}")),
         })
     }
@@ -148,6 +154,27 @@ impl Op {
 
 pub fn ops_text(ops: &[Op]) -> String {
     ops.iter().map(|o| o.text()).collect::<Vec<_>>().join(";")
+}
+
+/// Split a recorded history into its top-level calls and the inline destructor-side
+/// calls (`@k <call>`).
+pub fn parse_history(t: &str) -> Result<(Vec<Op>, Vec<(u32, Vec<Op>)>), String> {
+    let mut ops = vec![];
+    let mut inline: Vec<(u32, Vec<Op>)> = vec![];
+    for part in t.split(';').map(str::trim).filter(|s| !s.is_empty() && !s.starts_with('[')) {
+        if let Some(rest) = part.strip_prefix('@') {
+            let (k, op) = rest.trim().split_once(' ').ok_or(format!("{part}: missing call"))?;
+            let k: u32 = k.parse().map_err(|e| format!("{part}: {e}"))?;
+            let op = Op::parse(op)?;
+            match inline.iter_mut().find(|(kk, _)| *kk == k) {
+                Some((_, v)) => v.push(op),
+                None => inline.push((k, vec![op])),
+            }
+        } else {
+            ops.push(Op::parse(part)?);
+        }
+    }
+    Ok((ops, inline))
 }
 
 pub fn parse_ops(t: &str, sep: char) -> Result<Vec<Op>, String> {
@@ -162,11 +189,16 @@ pub struct Faults {
     pub panic_at: Vec<u32>,
     /// Scripts attached to destructor positions.
     pub scripts: Vec<(u32, Vec<Op>)>,
+    /// Destructor-side calls that belong to the history itself (recorded inline as
+    /// `@k <call>` when the payload's own destructor behaviour issued them): executed
+    /// like a script, right before the value releases its stored handles, but not a
+    /// fault for the purpose of attribution.
+    pub inline: Vec<(u32, Vec<Op>)>,
 }
 
 impl Faults {
     pub fn is_empty(&self) -> bool {
-        self.panic_at.is_empty() && self.scripts.is_empty()
+        self.panic_at.is_empty() && self.scripts.is_empty() && self.inline.is_empty()
     }
     pub fn text(&self) -> String {
         let mut parts = vec![];
